@@ -38,7 +38,12 @@ ROUTES = ('ctor', 'set_rules', 'file', 'ctor+own', 'set_rules+own',
           # name x comes from a RuleDefault registered AFTER the first enforce
           'file+late',
           # no main policy file at all: the rules come from policy.d
-          'dir-only')
+          'dir-only',
+          # the main file holds everything but the name 'default', which
+          # policy.d supplies
+          'file+dir-default',
+          # ... or a default registered in code supplies it
+          'file+reg-default')
 
 
 def bound(tier):
@@ -104,6 +109,19 @@ def build(P, parse_rule, ruleset, cfg, route, w):
         w.write('policy.d/rules.yaml', world.dumps_policy(ruleset))
         conf = world.new_conf(w.root, **overrides)
         return P.Enforcer(conf, **kw)
+    if route in ('file+dir-default', 'file+reg-default'):
+        main = {k: v for k, v in ruleset.items() if k != 'default'}
+        w.write('policy.yaml', world.dumps_policy(main))
+        w.mkdir('policy.d')
+        if 'default' in ruleset and route == 'file+dir-default':
+            w.write('policy.d/d.yaml',
+                    world.dumps_policy({'default': ruleset['default']}))
+        conf = world.new_conf(w.root, policy_dirs=['policy.d'], **overrides)
+        enf = P.Enforcer(conf, **kw)
+        if 'default' in ruleset and route == 'file+reg-default':
+            enf.register_default(P.RuleDefault('default',
+                                               ruleset['default']))
+        return enf
     if route == 'file+late':
         in_file = {k: v for k, v in ruleset.items() if k != 'x'}
         w.write('policy.yaml', world.dumps_policy(in_file))
@@ -135,8 +153,10 @@ def run_redefine(acc, P, parse_rule):
     second lookup follows the definition as it now stands."""
     for how_cfg in ('ctor', 'option', 'unset'):
         dname = {'ctor': 'y', 'option': 'y', 'unset': 'default'}[how_cfg]
-        for b1, b2, how in itertools.product(BODIES[1:], BODIES, (
+        for b1, b2, how in itertools.product(BODIES, BODIES, (
                 'update', 'assign')):
+            if b1 is None and b2 is None:
+                continue
             kw, over = {}, {}
             if how_cfg == 'ctor':
                 kw['default_rule'] = dname
@@ -144,14 +164,16 @@ def run_redefine(acc, P, parse_rule):
                 over['policy_default_rule'] = dname
             conf = world.new_conf(**over)
             enf = P.Enforcer(conf, use_conf=False, **kw)
-            cur = {dname: b1, 'x': '!'}
+            # b1 None: the default rule is not defined at first and only
+            # arrives with the later in-place change
+            cur = {dname: b1, 'x': '!'} if b1 is not None else {'x': '!'}
             enf.set_rules(P.Rules.from_dict(cur), use_conf=False)
             acc.case('redefine', True)
             for step in (0, 1):
                 if step:
                     if b2 is None:
                         enf.rules.pop(dname, None)
-                        cur.pop(dname)
+                        cur.pop(dname, None)
                     elif how == 'update':
                         enf.set_rules(P.Rules.from_dict({dname: b2}),
                                       overwrite=False, use_conf=False)
